@@ -56,6 +56,19 @@ def gen_case(seed, tier="quick"):
         c = r.random()
         dom = GG.gen_iv(r, "x") if c < 0.2 else (GG.gen_sph(r, "x") if c < 0.3 else GG.gen_prim2(r, "x"))
         case.update(dom=dom, pspace=[], prow=[], n=r.choice((200, 500, 1000, 4000)))
+        rg = rnd(seed, "grid-rows")
+        if G.space(dom)[0][1] == 2 and rg.random() < 0.4:
+            # a fixed shape moved by a parameter-dependent translation / rotation, gridded for 2-3 rows in ONE call
+            if rg.random() < 0.5:
+                dom = {"k": "transl", "d": dom, "v": [["aff", GG.q(rg.uniform(-1, 1)), GG.q(rg.uniform(2, 9)), "t"], GG.q(rg.uniform(-1, 1))]}
+            else:
+                dom = {"k": "rot", "d": dom, "ang": ["aff", GG.q(rg.uniform(-3, 3)), GG.q(rg.uniform(0.5, 2.5)), "t"],
+                       "around": [GG.q(rg.uniform(-1, 1)), GG.q(rg.uniform(-1, 1))]}
+            k = rg.choice((2, 3))
+            rows = [[GG.q(v)] for v in rg.sample([rg.uniform(0, 0.2), rg.uniform(0.4, 0.6), rg.uniform(0.8, 1.0)], k)]
+            j = rg.randrange(k)
+            case.update(dom=dom, pspace=[["t", 1]], prow=rows[j], prows_extra=rows[:j] + rows[j + 1:], prow_index=j,
+                        n=rg.choice((200, 500, 1000)))
         return case
     r4 = rnd(seed, "union-rows")
     if law == "uniform" and r4.random() < 0.15:
